@@ -7,7 +7,7 @@
    packet), then reports end of input at a clean boundary; the sizes add up to the stream length.
    Arbitrary chunked delivery of the stream for the poll loop is C05 (poll1 = any schedule); for the
    async loop chunking is invisible by the read_exact contract (Base/Reader.v, trusted base). *)
-From MQ Require Import Proofs.Tactics Model.Valid Model.Stream Proofs.FrontRT.
+From MQ Require Import Proofs.Tactics Model.Valid Model.Stream Proofs.FrontRT Proofs.StreamSched Proofs.AsyncChunks.
 Open Scope N_scope.
 
 Theorem C08_v3_async : forall prof ps bs, encs3 prof ps bs -> forall fuel t, (length ps < fuel)%nat ->
@@ -46,3 +46,38 @@ Theorem C08_v5_sizes : forall prof ps bs, encs5 prof ps bs ->
   sizes_sum (combine ps (map len bs)) = len (concat bs).
 Proof. exact FrontRT5.C08_v5_sizes. Qed.
 Print Assumptions C08_v5_sizes.
+
+(* ---------------- arbitrary chunked delivery ---------------- *)
+(* the poll loop on ONE scripted transport (atoms: bytes, read boundaries, Pendings): after a packet the next
+   decode continues on the atoms left, which may begin in the middle of what was a single read.  For every
+   delivery schedule of the concatenated encodings the loop returns exactly the sequence. *)
+Theorem C08_v3_poll_any_schedule : forall prof ps bs, encs3 prof ps bs -> forall fuel t l, (length ps < fuel)%nat ->
+  bytes_of l = concat bs ->
+  stream_poll_atoms V3.packet (F3.poll_drive prof) fuel t l [] = (combine ps (map len bs), FErr (io_err t)).
+Proof. exact StreamSched.C08_v3_poll_any_schedule. Qed.
+Print Assumptions C08_v3_poll_any_schedule.
+
+(* ---------------- arbitrary chunked delivery ---------------- *)
+(* the poll loop on ONE scripted transport (atoms: bytes, read boundaries, Pendings): after a packet the next
+   decode continues on the atoms left, which may begin in the middle of what was a single read.  For every
+   delivery schedule of the concatenated encodings the loop returns exactly the sequence. *)
+Theorem C08_v5_poll_any_schedule : forall prof ps bs, encs5 prof ps bs -> forall fuel t l, (length ps < fuel)%nat ->
+  bytes_of l = concat bs ->
+  stream_poll_atoms V5.packet (F5.poll_drive prof) fuel t l [] = (combine ps (map len bs), FErr (io_err t)).
+Proof. exact StreamSched.C08_v5_poll_any_schedule. Qed.
+Print Assumptions C08_v5_poll_any_schedule.
+
+(* for the async loop, chunking and Pending are invisible because tokio's read_exact — the only way the async
+   decoders touch the transport — returns the same bytes under every schedule (library contract, derived here
+   from the obvious implementation loop over the scripted transport: Proofs/AsyncChunks.v) *)
+Theorem C08_read_exact_any_schedule : forall n l t,
+  exists rest, read_exact_atoms (S (length l)) n [] l t =
+    Some (match read_exact n t (bytes_of l) with ROk a _ => ROk a [] | RErr e => RErr e | RPanic s => RPanic s end, rest).
+Proof. exact read_exact_any_schedule. Qed.
+Print Assumptions C08_read_exact_any_schedule.
+
+Example ex_C08 :
+  stream_poll_atoms V3.packet (F3.poll_drive Debug) 5 TEof
+    [APend; AB 64; ACut; AB 2; AB 0; ACut; APend; AB 7; AB 192; APend; ACut; AB 0] []
+  = ([(V3.Puback 7, 4); (V3.Pingreq, 2)], FErr (IoError KUnexpectedEof)).
+Proof. vm_compute. reflexivity. Qed.
